@@ -220,8 +220,16 @@ def split_case(case):
         kick = np.zeros(shape); kick[n // 2:] = 1
     else:
         bits = case["mask"]
-        mk = np.array([bool(int(ch)) for ch in bits])
+        mk = np.array([bool(int(ch)) for ch in bits]).reshape(shape)      # (matrix-shaped states: the mask has the state's shape, row-major)
         kick = mk.astype(float)
+        # what the caller hands over: a bool array, or any array / list whose truthy entries mark the kicked variables (flag bits, -1 markers)
+        kind = case.get("mask_kind", "bool")
+        if kind == "int2":
+            mk = mk.astype(np.int64) * 2
+        elif kind == "neg":
+            mk = -mk.astype(np.int8)
+        elif kind == "list":
+            mk = mk.astype(int).tolist()
     m = M(shape, dtype=np.dtype(dtype), staggered_mask=mk)
     tcur, ycur = t, y.copy()
     e = eps_of(dtype)
@@ -353,6 +361,19 @@ def build_cases(ctx):
                         if ctx.quick and dname == "float64" and M.__name__ in ("RadauIIA19",) and not (h in (0.25, -0.0625) and t != 0.0):
                             continue
                         cases.append(dict(section="rk", method=M.__name__, dtype=dname, rhs=pn, shape=shp, t=t, h=h, seed=seed))
+    # matrix-shaped states with masks that vary INSIDE a row (one row per particle, columns (q, p)) and along rows; masks handed over as flag-bit / marker
+    # arrays and lists
+    for M in sp:
+        for dname in DTYPES:
+            for pn, shp, masks in [("tanh_net", [2, 2], ["0101", "0011", "1010", "0110"]), ("linear_t", [2, 3], ["010101", "000111", "011010"]), ("tanh_net", [3, 2], ["010101", "001100"])]:
+                for mk in masks:
+                    for h in (0.0625, -0.0625):
+                        if ctx.quick and dname != "float64" and mk not in ("0101", "010101"):
+                            continue
+                        cases.append(dict(section="split", method=M.__name__, dtype=dname, rhs=pn, shape=shp, mask=mk, t=-1.5, h=h, seed=seed))
+            for kind in ("int2", "neg", "list"):
+                for shp, mk in (([4], "0101"), ([2, 2], "0101"), ([4], "0011")):
+                    cases.append(dict(section="split", method=M.__name__, dtype=dname, rhs="tanh_net", shape=shp, mask=mk, mask_kind=kind, t=0.0, h=0.0625, seed=seed))
     for M in sp:
         for dname in DTYPES:
             for pn, shp, masks in [("tanh_net", [4], ["default", "0011", "0101", "1100", "1010"]), ("poly", [2], ["default", "01", "10"]), ("linear_t", [6], ["default", "010101", "000111"])]:
